@@ -2059,7 +2059,7 @@ def explicit_real(chk):
     strategies); every labelled part of every case is judged against the declared schemas; an operation that ends
     without a single case although an input left to generate can certainly be violated is a violation."""
     rng = chk.rng
-    scenarios = x_scenarios(rng, chk.budget(3, 60))
+    scenarios = x_scenarios(rng, chk.budget(3, 40))
     n_draws = chk.budget(8, 15)
     reqs, obs, judged, zero = [], [], [], []
     for i, (name, params, body, body_supplied) in enumerate(scenarios):
